@@ -4,6 +4,7 @@ import (
 	"fmt"
 	"math"
 	"strconv"
+	"strings"
 	"time"
 )
 
@@ -164,7 +165,21 @@ func fnGetEx(ctx *cmdContext, args map[string]any) (output respValue, err error)
 		return
 	}
 
-	str, valueExists := ctx.dsc.getKeySetExpiration(keyName, expiration)
+	// without an expiration option GETEX is a plain GET that leaves the expiration alone
+	hasExpirationArg := false
+	for name := range args {
+		if strings.HasPrefix(name, "expiration.") {
+			hasExpirationArg = true
+		}
+	}
+
+	var str string
+	var valueExists valueExists
+	if hasExpirationArg {
+		str, valueExists = ctx.dsc.getKeySetExpiration(keyName, expiration)
+	} else {
+		str, valueExists = ctx.dsc.getKey(keyName)
+	}
 	if valueExists == VALUE_WRONG_TYPE {
 		output.data = wrongTypeError
 	} else if valueExists == VALUE_EXISTS {
